@@ -659,12 +659,19 @@ def _m_astype(it, args, kwargs):
         width = t[1:]
         if width.isdigit() and int(width) == 0:
             raise PyRaise("TypeError", "astype('U0')")
-    if kind == "bool" and s.sort != BOOL:
+    if isinstance(kind, str) and kind == "bool" and s.sort != BOOL:
         out = Seq(s.len, lambda j: coerce(it, s.at(j), s.sort, BOOL), BOOL)
-    elif kind == "int" and s.sort == V:
+    elif isinstance(kind, str) and kind == "int" and s.sort == V:
         out = Seq(s.len, lambda j: s.at(j), V)
     else:
-        cast = z3.Function(f"cast_{kind}", V, V) if not same_kind(a.kind, kind) else None
+        if same_kind(a.kind, kind):
+            cast = None
+        elif isinstance(kind, str):
+            cast = z3.Function(f"cast_{kind}", V, V)
+        else:
+            # the target kind is symbolic (e.g. astype(other.na_dtype)): the cast is a function of the kind and the value
+            _ck = z3.Function("cast_to_kind", INT, V, V)
+            cast = (lambda kt: lambda v: _ck(kt, v))(kind_term(kind))
         if s.sort != V:
             out = Seq(s.len, s.at, s.sort)
         elif cast is None:
